@@ -174,3 +174,28 @@ Example gen_ops_example :
   snd (gen_delete_atom false 2 (s_heap s) (s_cur s)) = None /\
   keys (o_atoms (snd (fst (gen_delete_atom false 2 (s_heap s) (s_cur s))))) = [1; 3].
 Proof. vm_compute. repeat split; reflexivity. Qed.
+
+(* ---- the state machine all C13 theorems quantify over executes the translated bodies: in every state satisfying the world
+   invariant W, one step of an edit / of the transaction protocol IS the action generated from the source *)
+From Proofs Require Import CacheCopy CacheCoh CacheWorld.
+Lemma lift_ext (a b : act) s : a (s_heap s) (s_cur s) = b (s_heap s) (s_cur s) -> lift a s = lift b s.
+Proof. intros H. unfold lift. rewrite H. reflexivity. Qed.
+Theorem step_runs_translated_source : forall s, W s ->
+  (forall c n, step s (OAddAtom c n) = lift (gen_add_atom false c n) s) /\
+  (forall n m ord, step s (OAddBond n m ord) = lift (gen_add_bond false n m ord) s) /\
+  (forall n, step s (ODelAtom n) = lift (gen_delete_atom false n) s) /\
+  (forall n m, step s (ODelBond n m) = lift (gen_delete_bond false n m) s) /\
+  step s OEnter = lift gen_enter s /\
+  step s OExitOk = lift (gen_exit false) s /\
+  step s OExitExn = lift (gen_exit true) s.
+Proof.
+  intros s HW. pose proof (W_cur s HW) as [[Hwf _] _]. pose proof (wf_keys _ _ _ Hwf) as Hk.
+  repeat split; intros; simpl; apply lift_ext; symmetry.
+  - apply gen_add_atom_eq. exact Hk.
+  - apply gen_add_bond_eq.
+  - apply gen_delete_atom_eq. rewrite Hk. reflexivity.
+  - apply gen_delete_bond_eq.
+  - apply gen_enter_eq.
+  - apply gen_exit_ok_eq.
+  - apply gen_exit_exn_eq.
+Qed.
